@@ -1,6 +1,6 @@
 (* PV.C08.Examples — non-vacuity: concrete non-trivial instances of every hypothesis / guard. *)
 From Coq Require Import List Bool Arith.
-From PV Require Import Base.PyData C08.Model C08.ProofsDomain C08.Properties.
+From PV Require Import Base.PyData C08.Model C08.ProofsDomain C08.ProofsRefineAll C08.Properties.
 Import ListNotations.
 
 (* first-order absorption, 2 peripherals, lag time, NONMEM-like environment *)
@@ -71,10 +71,26 @@ Example domain_nontrivial :
 Proof. repeat split; try (vm_compute; reflexivity); cbn; repeat constructor. Qed.
 
 (* setter_refines is used beyond every bound of the vm_compute closure: 40 transits, 25 peripherals *)
+Definition ex_big : sk := mkSk SEQ 40 25 EZO true true true false true true.
 Example all_counts_nontrivial :
-  refines_proved_for_all_counts ElMix = true /\ refines_proved_for_all_counts PerAdd = true
-  /\ refines_proved_for_all_counts (Transits 3 true) = false
-  /\ valid (mkSk SEQ 40 25 EZO true true true false true true) = true
-  /\ guard PerAdd (mkSk SEQ 40 25 EZO true true true false true true) = true
-  /\ guard ElMix (mkSk SEQ 40 25 EZO true true true false true true) = true.
+  refines_proved ElMix ex_big = true /\ refines_proved PerAdd ex_big = true /\ refines_proved PerRem ex_big = true
+  /\ refines_proved (PerSet 3) ex_big = true /\ refines_proved (PerSet 26) ex_big = true
+  /\ refines_proved (PerSet 27) ex_big = false /\ refines_proved AbsSeq ex_big = true
+  /\ refines_proved AbsInst (mkSk ZO 30 2 EFO true false true false true true) = true
+  /\ refines_proved AbsInst (mkSk SEQ 0 7 EMM false true true false true false) = true
+  /\ refines_proved AbsZO (mkSk FO 0 7 EMM true true true false true true) = true
+  /\ refines_proved AbsFO (mkSk ZO 0 12 EFO true false true false true true) = true
+  /\ refines_proved (Transits 3 true) ex_big = true /\ refines_proved (Transits 0 true) ex_big = true
+  /\ refines_proved (Transits 77 true) ex_big = true /\ refines_proved (Transits 40 true) ex_big = true
+  /\ refines_proved (Transits 3 false) ex_big = false
+  /\ refines_proved (Transits 12 false) (mkSk ZO 0 9 EMM false false true false true true) = true
+  /\ refines_proved (Transits 1 true) (mkSk INST 0 9 EMM true false true false true true) = true
+  /\ refines_proved (Transits 2 true) (mkSk INST 0 9 EMM true false true false true true) = false
+  /\ refines_proved_for_all_counts PerRem = true
+  /\ open_case (Transits 3 true) ex_big = false /\ guard (Transits 0 true) (mkSk FO 33 8 EMIX false true true false true false) = true
+  /\ open_case (Transits 0 true) (mkSk FO 33 8 EMIX false true true false true false) = false
+  /\ open_case (Transits 3 false) ex_big = true /\ open_case AbsInst ex_big = true /\ open_case (PerSet 27) ex_big = true
+  /\ open_case AbsSeq (mkSk INST 0 2 EFO false false false false false false) = true
+  /\ valid ex_big = true /\ guard PerAdd ex_big = true /\ guard (PerSet 3) ex_big = true /\ guard ElMix ex_big = true
+  /\ guard AbsSeq ex_big = true.
 Proof. repeat split; vm_compute; reflexivity. Qed.
